@@ -70,6 +70,7 @@ def init(ck):
     import jax.numpy as jnp
     import nifty.re as jft
     H.silence_nifty_logger()
+    H.enable_compile_cache()
     ck.state.update(jax=jax, jnp=jnp, jft=jft)
 
 
@@ -770,10 +771,11 @@ def case(ck, i):
     rng = ck.rng()
     # composition cycles with the per-family case counter so that every worker reaches every
     # composition kind within its first few cases even when the machine is heavily loaded
-    comp = COMPS[(i // len(FAMILIES)) % len(COMPS)]
-    # family by case index: with 8 (or 16) workers dealing indices round-robin every worker
-    # sees one family only, which bounds the number of eagerly compiled XLA kernels per process
-    fname, fam = FAMILIES[i % len(FAMILIES)]
+    rnd = i // len(FAMILIES)
+    comp = COMPS[rnd % len(COMPS)]
+    # family rotates with the round number: each round of 8 consecutive indices covers all families
+    # with the same composition kind, and every worker process cycles through all families
+    fname, fam = FAMILIES[(i + rnd) % len(FAMILIES)]
     S["thorough"] = ck.thorough()
     S["x0"] = x_point(S, rng)
     try:
